@@ -70,6 +70,19 @@ CHECKS = {
          "contracts (ilength/cropped: C07/C09); singular unit tangents are an oracle (C15)."),
    technique='Coq theorems over R (Coquelicot/nra, list induction) + translator agreement + bigfloat correspondence',
    ref='DESIGN.md §3 C20'),
+ 'C19': dict(
+   text=("ALL DEGREES (induction on the number of control points, Proofs/DeCasteljau.v): bezier_point = Bernstein sum, the de "
+         "Casteljau recurrence, split_bezier's two halves are the sub-curves u->p(ut) and u->p(t+u(1-t)) meeting at p(t), reversal; per "
+         "degree 0..8 (ring/field): bezier2polynomial is the change of basis; degree<=3 mutual inverses; halve = split at 1/2; "
+         "n_choose_k = binomial for all k<=n; all closed under the global context. polyroots: the index-correct de-duplication keeps every "
+         "isolated root exactly once and invents none (any relation isclose), the de-duplication AS CODED is refuted by a vm_compute witness. "
+         "rational_limit over R: returns f1(t0)/g1(t0) for a common zero of any order k, which IS is_lim of f/g (Coquelicot), ValueError "
+         "exactly for lower-order vanishing of f, never out of fuel. Tie: 76 translator agreement lemmas (bezier.py re-translated every run) + "
+         "exact-rational correspondence; np.roots output recorded per case and handed to the Coq model of polyroots; prescribed root sets."),
+   note=("Trusted: kernel+vm_compute, py2v.py, harness. numpy.roots (LAPACK) is an oracle; numpy poly1d arithmetic modelled by coefficient "
+         "lists. The complex (realroots=False) branch of polyroots is not modelled."),
+   technique='Coq theorems (list induction, ring/field, Coquelicot limits) + AST translator agreement lemmas + exact-rational correspondence',
+   ref='DESIGN.md §3 C19'),
 }
 def main():
     checks = []
